@@ -1247,6 +1247,111 @@ example : ∃ r' s p,
 
 end EndToEnd
 
+/-! ## END TO END over histories that parse: parse ∘ API edits ∘ `create_missing_prefixes` ∘ serialise ∘ parse
+
+The same composition with the bridges for FULL histories (`C04_reach_full`,
+`C01_reachable_representable_full`, Props/C04.lean): the history may contain `parse` / `parse_fragment` steps
+of arbitrary texts anywhere. -/
+
+section EndToEndFull
+open XotModel.Repair
+
+/-- ⟦C10_reachable_repair_roundtrip_full⟧ **… over histories that PARSE and edit.**  The statement of
+    `C10_reachable_repair_roundtrip` with `S` the store after any FULL history `cs` from `Xot::new()` with the
+    tables `env` (`PCall`, Model/FparseHist.lean: `parse` / `parse_fragment` of ARBITRARY texts, accepted or
+    rejected, and well-kinded extended API calls in any order; consolidation never switched off), `r` any
+    parentless tree of it whose root is a document node — a parsed document, edited or not, or one built by
+    hand — with values in the XML domain for the tables of the store, `nameTableOK`; `S'` the store after
+    the history extended by the step `create_missing_prefixes(r)`.  Same conclusion (the step answers `Ok`,
+    invariant, `r'` in `r`'s place, `Representable`, writable, `to_string` ∘ `parse` gives back `r'` erased,
+    `deep_equal` to the tree before the call, namespace nodes the only difference); moreover the xml:id
+    index of the store is untouched. -/
+theorem C10_reachable_repair_roundtrip_full (env : Env) (cs : List PCall) (hw : ∀ c ∈ cs, c.wellKinded)
+    (S : PStore) (hS : S = (PStore.init env).run cs) (hoff : S.forest.everOff = false)
+    (r : HTree) (hr : r ∈ S.forest.roots) (hdoc : r.value.isDocument = true) (henv : envOK S.env = true)
+    (hval : r.erase.allNodes (fun v _ => valueOK S.env v) = true)
+    (hid : (xmlIdValues S.env r.erase).Nodup) (hone : singleRoot r.erase = true)
+    (htab : nameTableOK S.env = true)
+    (S' : PStore) (hS' : S' = (PStore.init env).run (cs ++ [.api (.createMissingPrefixes r.handle)])) :
+    ((PCall.api (.createMissingPrefixes r.handle)).run S).2 = .api .ok ∧ S'.forest.Inv ∧ S'.index = S.index ∧
+    ∃ r' : HTree, r'.handle = r.handle ∧
+      S'.forest.roots = S.forest.roots.map (fun y => if (y.pathOf r.handle).isSome then r' else y) ∧
+      S'.forest.rootOf? r.handle = some r' ∧
+      r'.handles.filter (· < S.forest.next) = r.handles ∧
+      createMissingPrefixes S.env r.erase [] = .ok (S'.env, r'.erase) ∧
+      Representable S'.env r'.erase = true ∧ namesWritable S'.env r'.erase [] = some true ∧
+      ∃ s p, toXmlString S'.env r'.erase [] = .ok s ∧ parseString .document S'.env s = .ok p ∧
+        p.tree = r'.erase ∧ p.env = S'.env ∧ deepEqual p.tree r.erase = true ∧
+        Repair.stripNs p.tree = Repair.stripNs r.erase := by
+  have hi' : S'.forest.Inv := by
+    rw [hS']
+    refine (C04_reach_full env _ (fun c hc => ?_)).1
+    rcases List.mem_append.mp hc with hc | hc
+    · exact hw c hc
+    · rw [List.mem_singleton.mp hc]; trivial
+  have hstep : S' = ⟨(S.forest.createMissingPrefixes S.env r.handle).1,
+      (S.forest.createMissingPrefixes S.env r.handle).2.1, S.index⟩ := by
+    rw [hS', hS]; simp [PStore.run, List.foldl_append, PStore.step, PCall.run, Forest.XCall.run, PStore.store]
+  subst hS
+  have hi := (C04_reach_full env cs hw).1
+  have hrep : Representable ((PStore.init env).run cs).env r.erase = true := by
+    rw [(C01_reachable_representable_full env cs hw hoff r hr _).2]
+    simp [henv, hdoc, hval, hid, hone]
+  obtain ⟨h1, h2, hg, hd, _⟩ := Reach.root_located hi hr
+  obtain ⟨k, hk, hke⟩ := Reach.element_kid_of_singleRoot hone
+  obtain ⟨r', a1, a2, a3, a4, a5, a6, _, _⟩ := C10_forest_repair_refines_tree_document _ hi
+    ((PStore.init env).run cs).env r.handle (by rw [hd]; exact hdoc) ⟨r, k, hg, hk, hke⟩ r h1 [] h2
+  obtain ⟨hwr, s, p, k1, k2, k3, k4, _, k6, k7⟩ := C10_repair_roundtrip _ r.erase hrep htab _ _ a2
+  have hrep' := (C10_repair_representable _ r.erase hrep htab _ _ a2).1
+  subst hstep
+  refine ⟨?_, hi', rfl, r', Reach.handle_of_pathOf_nil a4, a5, a3, a6, a2, hrep', hwr, s, p, k1, k2, k3, k4, k6, k7⟩
+  simp only [PCall.run, Forest.XCall.run, PStore.store]
+  rw [a1]
+
+/-! Non-vacuity, closed: `fullCallsB` of Props/C04.lean without its last step.  From the tables of `Xot::new()`:
+    PARSE `<r xmlns:p="urn:a"><p:a>t</p:a></r>`, REMOVE the declaration of `p`, create a new element `{urn:a}a`,
+    append it, give it the attribute `p:a="v"`, parse a text that is REJECTED (`<a><b></a>`: it leaves the names
+    `a`, `b` in the tables).  The document is in the value-level domain and NOT writable; every hypothesis
+    holds by evaluation; the step `create_missing_prefixes(doc)` gives `fullRootB` (declaration `n0`), which
+    serialises and reparses to itself, `deep_equal` to the tree before the call. -/
+
+def c10FullCalls : List PCall :=
+  [.parse .document fullText, .api (.call (.mapRemove .namespaces 1 2)), .api (.newNode (.element 3)),
+   .api (.call (.append 1 5)), .api (.call (.mapInsert .attributes 5 (.attribute 3 ['v']))),
+   .parse .document "<a><b></a>".toList]
+def c10FullRoot : HTree :=
+  .node 0 .document [.node 1 (.element 2) [
+    .node 3 (.element 3) [.node 4 (.text ['t']) []],
+    .node 5 (.element 3) [.node 6 (.attribute 3 ['v']) []]]]
+
+example : c10FullCalls ++ [.api (.createMissingPrefixes c10FullRoot.handle)] = fullCallsB := rfl
+
+example :
+    let S := (PStore.init Env.fresh).run c10FullCalls
+    (∀ c ∈ c10FullCalls, c.wellKinded) ∧ S.forest.everOff = false ∧ S.forest.roots = [c10FullRoot] ∧
+    c10FullRoot.value.isDocument = true ∧ envOK S.env = true ∧
+    c10FullRoot.erase.allNodes (fun v _ => valueOK S.env v) = true ∧
+    (xmlIdValues S.env c10FullRoot.erase).Nodup ∧ singleRoot c10FullRoot.erase = true ∧
+    nameTableOK S.env = true ∧ namesWritable S.env c10FullRoot.erase [] = some false ∧
+    (match (PStore.outs (PStore.init Env.fresh) c10FullCalls).getLast? with
+      | some (.rejected _) => true | _ => false) = true := by decide +kernel
+
+example : ∃ r' s p,
+    let S' := (PStore.init Env.fresh).run fullCallsB
+    S'.forest.rootOf? 0 = some r' ∧ r'.erase = fullRootB.erase ∧ toXmlString S'.env r'.erase [] = .ok s ∧
+      parseString .document S'.env s = .ok p ∧ p.tree = r'.erase ∧ deepEqual p.tree c10FullRoot.erase = true := by
+  obtain ⟨_, _, _, r', _, h2, h3, _, _, _, _, s, p, k1, k2, k3, _, k5, _⟩ :=
+    C10_reachable_repair_roundtrip_full Env.fresh c10FullCalls (by decide) _ rfl (by decide +kernel)
+      c10FullRoot (by decide +kernel) rfl (by decide +kernel) (by decide +kernel) (by decide +kernel)
+      (by decide +kernel) (by decide +kernel) _ rfl
+  refine ⟨r', s, p, h3, ?_, k1, k2, k3, k5⟩
+  have hr : ((PStore.init Env.fresh).run fullCallsB).forest.rootOf? 0 = some fullRootB := by decide +kernel
+  rw [show c10FullCalls ++ [.api (.createMissingPrefixes c10FullRoot.handle)] = fullCallsB from rfl,
+    show c10FullRoot.handle = 0 from rfl, hr] at h3
+  cases h3; rfl
+
+end EndToEndFull
+
 /-! ## The call on a DOCUMENT node: declarations and bindings kept; every tree: what holds after repair
 
 Two restatements that the sections above left to composition. -/
